@@ -22,6 +22,11 @@ Case line (kind `a10`), fields separated by `|`:
            ~k : the class body defines _name_default = F[k];  /hK : the class body defines _name_changed = handler K
   ops      new k · get i n · set i n v · mut i n x (append / add / setitem on the value read) ·
            mui i n x (append to element 0 of the value read) · rd i n h · ro i n h · ra i h · at i n <member> ·
+           del i n (del obj.name) · q1 i (queries that read no value: traits(type=...), trait_names(type=...),
+           editable_traits()) ·
+           only in `#` cases (real code + oracle only): rst i n (reset_traits([name]); it swallows errors) ·
+           q2 i (copy.copy, clone_traits, trait_get(**metadata), pickle: they read values) · atn i v (add_trait of a
+           brand-new name) ·
            rdi i n h (on_trait_change(h, "<name>_items"); only in `#` cases = real code + oracle only: the items
            events of containers belong to the seq/map/set clusters' models)
 
@@ -129,6 +134,14 @@ def corpus():
         # the same CTrait object added to two instances; a handler registered on one of them
         mk_case([], ["-:0=c2"], ["o", "o"], ["new 0", "new 0", "at 0 0 k0", "at 1 0 k0", "rd 0 0 1", "set 1 0 5", "set 0 0 6"],
                 K=["c4"]),
+        # reset with a handler present: the default reported is the default stored; computed once per reset
+        mk_case(["f4"], ["-:0=L4.5,1=c2~0/h0"], ["o", "o"],
+                ["new 0", "new 0", "rd 0 0 1", "mut 0 0 9", "del 0 0", "get 0 0", "mut 0 0 10", "get 0 0", "set 0 1 5",
+                 "del 0 1", "get 0 1", "get 0 1", "get 1 0", "get 1 1"]),
+        # instance traits + metadata-filtered queries: nothing leaks into the class
+        mk_case([], ["-:0=c3,1=L4"], ["o"], ["new 0", "new 0", "at 0 0 c6", "set 0 0 5", "q1 0", "get 1 0", "new 0", "get 2 0"]),
+        mk_case([], ["-:0=c3,1=L4"], ["o"], ["new 0", "new 0", "at 0 0 c6", "atn 0 5", "q1 0", "q2 0", "get 1 0", "new 0",
+                                             "get 2 0"], impl_only=True),
         # the implicit path: the on-demand <name>_items instance trait (real code + oracle only)
         mk_case(["F"], ["-:0=U0", "-:0=U0"], ["o", "o"],
                 ["new 0", "new 0", "new 1", "mut 0 0 9", "mut 1 0 10", "mut 2 0 11", "rdi 0 0 1", "mut 1 0 12", "mut 2 0 13",
@@ -345,6 +358,77 @@ def items_case(rng):
     return mk_case(["F"], classes, ["o", "o"], ops, impl_only=True)
 
 
+def reset_case(rng):
+    """A handler (static / on_trait_change / observe / anytrait) is present; the attribute is assigned, reset with
+    `del`, read twice; for every default kind that is not a shared constant."""
+    F = []
+    kind = rng.choice(["L", "D", "S", "al", "ad", "fa", "m", "T", "U", "fa", "m", "c", "fe", "me"])
+    m = mk_member(rng, kind, F)
+    static = rng.random() < 0.4
+    classes = ["-:0=%s%s,1=c2" % (m, "/h0" if static else "")]
+    if rng.random() < 0.3:
+        classes.append("0:0=i,1=i")
+    top = len(classes) - 1
+    ops = ["new %d" % top, "new %d" % top]
+    if not static or rng.random() < 0.5:
+        ops.append(rng.choice(["rd 0 0 1", "ro 0 0 1", "ra 0 1"]))
+    if rng.random() < 0.5:
+        ops.append("get 0 0")
+    settable = kind in ("al", "ad", "fa", "m", "c", "fe", "me")
+    atoms = list(range(9, NATOMS))
+    rng.shuffle(atoms)
+    for _ in range(rng.randint(1, 2)):
+        # make the value differ from the default BY VALUE before the reset (the wrappers compare old != new; the
+        # model's comparison table knows identities only)
+        if settable:
+            ops.append("set 0 0 %d" % rng.choice([4, 5, 6]))
+        elif kind == "T":
+            ops.append("mui 0 0 %d" % atoms.pop())
+        else:
+            ops.append("mut 0 0 %d" % atoms.pop())
+        ops.append("del 0 0")
+        ops.append("get 0 0")
+        if rng.random() < 0.6 and kind not in ("c", "fe", "me"):
+            ops.append("mut 0 0 %d" % atoms.pop())
+        ops.append("get 0 0")
+    ops += ["get 1 0", "new %d" % top, "get 2 0"]
+    return mk_case(F, classes, ["o", "o"], ops)
+
+
+def query_case(rng, impl_only=False):
+    """An instance gets instance traits (add_trait redefinitions, per-instance clones made by registering
+    handlers; in `#` cases also brand-new names), then is queried with a metadata filter (`#` cases: also copied,
+    cloned, pickled); the class, other instances (before / after) and a later subclass must report what they
+    reported before."""
+    F = ["f4.5"]
+    classes = ["-:0=%s,1=%s" % (rng.choice(["c3", "al4", "L5", "fa0"]), rng.choice(["c2", "c4/h0"]))]
+    if rng.random() < 0.4:
+        classes.append("0:0=i,1=i")
+    top = len(classes) - 1
+    ops = ["new %d" % top, "new %d" % top]
+    acts = []
+    for _ in range(rng.randint(1, 3)):
+        r = rng.random()
+        if r < 0.5:
+            acts.append("at 0 %d %s" % (rng.randrange(2), rng.choice(["c5", "c6", "fa0"])))
+        elif r < 0.7:
+            acts.append(rng.choice(["rd 0 %d 1", "ro 0 %d 1"]) % rng.randrange(2))
+        elif impl_only:
+            acts.append("atn 0 %d" % rng.choice([4, 5, 6]))
+        else:
+            acts.append("set 0 %d %d" % (rng.randrange(2), rng.choice([4, 5])))
+    if not any(a.startswith("at") for a in acts):
+        acts.insert(0, "at 0 0 c5")
+    ops += acts
+    ops.append("q1 0")
+    if impl_only:
+        ops.append("q2 0")
+    if rng.random() < 0.5:
+        ops += ["get 0 0", "q1 0"]
+    ops += ["get 1 0", "get 1 1", "new %d" % top, "get 2 0", "get 2 1"]
+    return mk_case(F, classes, ["o", "o"], ops, impl_only=impl_only)
+
+
 def exhaustive():
     """Every default kind (also overridden by value / re-declared with _name_default in a subclass) x every kind
     of operation on the acting instance, with a sibling created before and one after."""
@@ -390,6 +474,12 @@ def generate(rng, tier):
         yield shared_add_trait_case(rng)
     for _ in range(max(20, n // 100)):
         yield items_case(rng)
+    for _ in range(n // 10):
+        yield reset_case(rng)
+    for _ in range(n // 20):
+        yield query_case(rng)
+    for _ in range(max(30, n // 60)):
+        yield query_case(rng, impl_only=True)
 
 
 # ---------------------------------------------------------------------------
@@ -427,6 +517,8 @@ class Run:
         self.atom_ids = {id(a): i for i, a in enumerate(self.A)}
         self.fn_cache = {}
         self.failed_defaults = set()
+        self.epoch = {}           # (instance, name) -> number of resets so far
+        self.slot_after = []      # per op: what is stored under the op's name afterwards
 
     # ----- factories, handlers
     def result_of(self, spec):
@@ -451,14 +543,14 @@ class Run:
     def factory(self, k):
         def f():
             self.fcalls.append(k)
-            self.fattr.append((k,) + (self.cur or (None, None)))
+            self.fattr.append((k,) + (self.cur or (None, None)) + (self.epoch.get(self.cur, 0),))
             return self.result_of(self.F[k])
         return f
 
     def default_method(self, k, name):
         def m(obj):
             self.fcalls.append(k)
-            self.fattr.append((k,) + (self.cur or (None, None)))
+            self.fattr.append((k,) + (self.cur or (None, None)) + (self.epoch.get(self.cur, 0),))
             return self.result_of(self.F[k])
         m.__name__ = "_%s_default" % name
         return m
@@ -651,13 +743,36 @@ class Run:
                         o, ci = self.objs[i]
                         if k == "ra":
                             o.on_trait_change(self.anyh(int(op[2])))
+                        elif k == "q1":
+                            o.traits(type="trait")
+                            o.trait_names(type="trait")
+                            o.editable_traits()
+                        elif k == "q2":
+                            import copy
+                            import pickle
+                            for fn in (lambda: copy.copy(o), lambda: o.clone_traits(),
+                                       lambda: o.trait_get(transient=None),
+                                       lambda: pickle.dumps(o.trait_get(type="trait")), lambda: o.traits(type="trait")):
+                                try:
+                                    fn()
+                                except Exception:
+                                    pass
+                        elif k == "atn":
+                            from traits.api import Any
+                            o.add_trait("extra%s" % op[2], Any(self.A[int(op[2])]))
                         else:
                             n = int(op[2])
                             name = "x%d" % n
                             if name not in self.names[ci]:
                                 raise AttributeError(name)
                             self.cur = (i, n)
-                            if k == "get":
+                            if k in ("del", "rst"):
+                                self.epoch[(i, n)] = self.epoch.get((i, n), 0) + 1
+                            if k == "del":
+                                delattr(o, name)
+                            elif k == "rst":
+                                o.reset_traits([name])
+                            elif k == "get":
                                 val = getattr(o, name)
                             elif k == "set":
                                 setattr(o, name, self.A[int(op[3])])
@@ -699,6 +814,8 @@ class Run:
                     read = val
                     read_struct = None if val is A else structure(self, val)
                 self.read_structs.append(read_struct)
+                self.slot_after.append(self.objs[self.cur[0]][0].__dict__.get("x%d" % self.cur[1], A)
+                                       if self.cur is not None else A)
                 stored = (self.cur is not None and
                           ("x%d" % self.cur[1]) in self.objs[self.cur[0]][0].__dict__)
                 self.raised_ops.append((op, exc, self.fraised[r0:], stored, self.log[log0:]))
@@ -893,18 +1010,19 @@ def run_impl(case):
     # ---- per-op clauses: first read, same object later, silent, once
     first_val = {}
     count = {}
-    for (k, i, n) in real.fattr:
+    for (k, i, n, ep) in real.fattr:
         if i is None:
             continue
-        count[(i, n)] = count.get((i, n), 0) + 1
-    for (i, n), c in count.items():
+        count[(i, n, ep)] = count.get((i, n, ep), 0) + 1
+    for (i, n, ep), c in count.items():
         if (i, n) in real.failed_defaults:
             tags.add("failing-default")
             continue
         if c > 1:
             ci = real.objs[i][1]
             hits.append(_hit("default-computed-twice:" + kind_of(real, ci, "x%d" % n),
-                             "default factory / _name_default ran %d times for instance %d attribute x%d" % (c, i, n)))
+                             "default factory / _name_default ran %d times for instance %d attribute x%d%s" % (
+                                 c, i, n, " after its reset number %d" % ep if ep else "")))
     assigned = set()
     added = {}              # (instance, name index) -> member code added with add_trait
     for opi, (op, exc, val, dlog, dfc) in enumerate(real.per_op):
@@ -914,6 +1032,23 @@ def run_impl(case):
                 assigned.add((int(op[1]), int(op[2])))
             elif exc is None:
                 added[(int(op[1]), int(op[2]))] = resolve_shared(real, op[3])
+            continue
+        if k in ("del", "rst"):
+            key = (int(op[1]), int(op[2]))
+            assigned.discard(key)
+            first_val.pop(key, None)
+            stored = real.slot_after[opi]
+            if key[0] < len(real.objs):
+                lab = kind_of(real, real.objs[key[0]][1], "x%d" % key[1])
+                tags.add("reset:" + lab + (":notified" if dlog else ""))
+                # the default a reset reports to the handlers is the default of the instance: the object stored,
+                # which later reads return
+                if dlog and exc is None and any(new is not stored for (_, _, _, new) in dlog):
+                    hits.append(_hit("reset-reports-other-object:" + lab,
+                                     "del reported a default object to a handler that is not the object stored on "
+                                     "the instance afterwards (%s)" % ("nothing stored" if stored is A else "another object")))
+                if stored is not A and exc is None:
+                    first_val[key] = stored
             continue
         if k in ("get", "mut", "mui") and val is not A:
             key = (int(op[1]), int(op[2]))
@@ -1016,6 +1151,10 @@ def run_impl(case):
                             run.final[(idx, nm)] = structure(run, getattr(o, nm))
                         except Exception as e:
                             run.final[(idx, nm)] = "raises " + exc_name(e)
+                        tq = o.traits().get(nm)           # what traits() reports (built from __base_traits__)
+                        run.final[(idx, nm, "traits()")] = None if tq is None else (
+                            tq.default_kind, structure(run, tq.default_value()[1])
+                            if tq.default_value()[0] in (0, 3, 4, 5, 6, 9) else "-")
                         t = o.trait(nm)
                         run.final[(idx, nm, "trait")] = (t.default_kind, int(t.comparison_mode), t.type,
                                                           structure(run, t.default_value()[1])
@@ -1031,9 +1170,34 @@ def run_impl(case):
                             setattr(o, nm, run.A[4])
                         except Exception:
                             pass
+                hidden = ("trait_added", "trait_modified")
+                for idx, (o, ci) in enumerate(run.objs):
+                    if idx != actor:
+                        run.final[(idx, "*names", "names")] = sorted(n for n in o.trait_names() if n not in hidden)
+                for ci, cls in enumerate(run.classes):
+                    # what the class itself reports, and a subclass defined afterwards
+                    run.fresh[(ci, "*class", "names")] = (
+                        sorted(n for n in cls.class_traits() if n not in hidden),
+                        sorted(n for n in cls.__base_traits__ if n not in hidden),
+                        sorted(n for n in cls.class_trait_names() if n not in hidden))
+                    for nm in run.names[ci]:
+                        bt = cls.__base_traits__.get(nm)
+                        run.fresh[(ci, nm, "base")] = None if bt is None else (
+                            bt.default_kind, structure(run, bt.default_value()[1])
+                            if bt.default_value()[0] in (0, 3, 4, 5, 6, 9) else "-")
+                    with warnings.catch_warnings():
+                        warnings.simplefilter("ignore")
+                        late = type("Late%d" % ci, (cls,), {})
+                    lo = late()
+                    run.keep.append(lo)
+                    run.fresh[(ci, "*late", "names")] = (
+                        sorted(n for n in late.class_traits() if n not in hidden),
+                        sorted(n for n in lo.trait_names() if n not in hidden),
+                        [None if lo.traits().get(nm) is None else lo.traits()[nm].default_kind for nm in run.names[ci]])
                 for ci, cls in enumerate(run.classes):
                     o = cls()
                     run.probe_objs[id(o)] = ("fresh", ci)
+                    run.fresh[(ci, "*fresh", "names")] = sorted(n for n in o.trait_names() if n not in hidden)
                     run.keep.append(o)
                     for nm in run.names[ci]:
                         try:
@@ -1059,14 +1223,27 @@ def run_impl(case):
             if real.final[key] != twin.final.get(key):
                 i, nm = key[0], key[1]
                 ci = real.objs[i][1]
-                what = "trait-definition" if len(key) == 3 else "value"
+                what = ("trait-names" if key[2:] == ("names",) else "traits()" if key[2:] == ("traits()",)
+                        else "trait-definition") if len(key) == 3 else "value"
+                if nm.startswith("*"):
+                    hits.append(_hit("interference:trait-names:other-instance",
+                                     "operations on instance %d changed the trait names instance %d reports: %s instead "
+                                     "of %s" % (actor, i, real.final[key], twin.final.get(key))))
+                    continue
                 hits.append(_hit("interference:%s:%s" % (what, kind_of(real, ci, nm)),
                                  "operations on instance %d changed the %s of %s on instance %d: %s instead of %s" % (
                                      actor, what, nm, i, real.final[key], twin.final.get(key))))
         for key in real.fresh:
             if real.fresh[key] != twin.fresh.get(key):
                 ci, nm = key[0], key[1]
-                what = "class-trait" if len(key) == 3 else "fresh-instance-default"
+                if nm.startswith("*"):
+                    hits.append(_hit("interference:trait-names:%s" % {"*class": "class", "*late": "later-subclass",
+                                                                     "*fresh": "later-instance"}[nm],
+                                     "operations on instance %d changed the trait names / definitions reported by %s of "
+                                     "class %d: %s instead of %s" % (actor, nm[1:], ci, real.fresh[key], twin.fresh.get(key))))
+                    continue
+                what = ("class-base-trait" if key[2:] == ("base",) else "class-trait") if len(key) == 3 \
+                    else "fresh-instance-default"
                 hits.append(_hit("interference:%s:%s" % (what, kind_of(real, ci, nm)),
                                  "operations on instance %d changed the %s of %s of class %d: %s instead of %s" % (
                                      actor, what, nm, ci, real.fresh[key], twin.fresh.get(key))))
